@@ -25,7 +25,7 @@ Look for breakages in parts of the behaviour these did not touch: other clauses 
 ENVIRONMENT (no network): prefix every shell command with
   export GOFLAGS=-mod=mod GOPROXY=off GOSUMDB=off GOTOOLCHAIN=local; unset GOWORK;
 Run the suite with:  cd @S@/@ID@ && go test -vet=off -count=1 -timeout 120s ./...
-(TestPing in package client is flaky on the unchanged tree; tests use 1 ms timing windows and other tests may flake under load: a test only counts as broken if it fails in each of 3 runs.) Always pass -timeout to go test. Demonstrations must finish within 60 s, fail with high probability (>= 9 of 10 runs) with the change and always pass without it. Test helpers in client/connection_test.go (setUp, mockNetConn) may be used by in-package demos; the mock socket's Write blocks once 20 lines are unread and is not released by Close. A known pre-existing defect: a goroutine of a finished connection may call Close() late and tear down an immediately re-established connection; demos that reconnect should wait ~100 ms after DISCONNECTED.
+(TestPing in package client is flaky on the unchanged tree; tests use 1 ms timing windows and other tests may flake under load: a test only counts as broken if it fails in each of 3 runs.) Always pass -timeout to go test. Do NOT use `git stash` (the stash is shared by all worktrees of this repository and other people work in sibling worktrees): save work with `git diff > file`, restore with `git checkout -- .` and `git apply file`. Demonstrations must finish within 60 s, fail with high probability (>= 9 of 10 runs) with the change and always pass without it. Test helpers in client/connection_test.go (setUp, mockNetConn) may be used by in-package demos; the mock socket's Write blocks once 20 lines are unread and is not released by Close. A known pre-existing defect: a goroutine of a finished connection may call Close() late and tear down an immediately re-established connection; demos that reconnect should wait ~100 ms after DISCONNECTED.
 
 DELIVERABLES - create @S@/@ID@/out/ (put a file out/go.mod containing "module out" so `go test ./...` ignores it) containing, for k = 1, 2:
   out/k/patch.diff     - `git diff` of the library change ONLY (must apply with `git apply` to a clean checkout of HEAD)
@@ -56,7 +56,7 @@ Each refactoring must compile (`go build ./...`), add no new `go vet ./client ./
 
 ENVIRONMENT (no network): prefix every shell command with
   export GOFLAGS=-mod=mod GOPROXY=off GOSUMDB=off GOTOOLCHAIN=local; unset GOWORK;
-Run the suite with:  cd @R@/@ID@ && go test -vet=off -count=1 -timeout 120s ./...   (TestPing is flaky on the unchanged tree; tests use 1 ms windows and may flake under load - a test only counts as broken if it fails in each of 3 runs.) Always pass -timeout.
+Run the suite with:  cd @R@/@ID@ && go test -vet=off -count=1 -timeout 120s ./...   (TestPing is flaky on the unchanged tree; tests use 1 ms windows and may flake under load - a test only counts as broken if it fails in each of 3 runs.) Always pass -timeout. Do NOT use `git stash` (it is shared with sibling worktrees): use `git diff > file; git checkout -- .; git apply file`.
 
 DELIVERABLES: create @R@/@ID@/out/ (with out/go.mod containing "module out") with, for k = 1..6:
   out/k.diff   - `git diff` of refactoring k ALONE against clean HEAD (must apply with `git apply`; include new files)
